@@ -1101,6 +1101,29 @@ theorem C07_open_switch_network (pre post : List (Branch String GQ)) (z : String
       · simp [hc, hy]
       · simp [hc]
 
+/-- **finding candidate (open).**  The constructors of the periodic sources accept a fundamental
+`w = 0` (their guard is `w < 0`), but such a component can never be translated: the translator
+divides by the fundamental (`period = 2*np.pi/w0`) and raises `ZeroDivisionError` at every analysis
+frequency.  An accepted component that has no branch and no rejection — the same pattern as
+`V_ref = 0` before fix e174570.  (`periodicOK` excludes it through `2·w_res < w0`, `0 ≤ w_res`.) -/
+theorem C07_zero_fundamental_counterexample :
+    (∃ s ∈ ctorSpecs, s.fn = "periodic_voltage_source" ∧
+      s.construct (some "V") (some ["1", "0"]) [("wavetype", .str "rect"), ("V", .num 1), ("w", .num 0)]
+        = .ok ⟨"periodic_voltage_source", "V", ["1", "0"],
+            [("wavetype", .str "rect"), ("V", .num 1), ("w", .num 0), ("phi", .num 0), ("R", .num 0)]⟩) ∧
+    ∀ w : Rat, transformComponent Gen.tables (fun _ => (1, 0)) (fun _ _ _ _ => (1, 0))
+      ⟨"periodic_voltage_source", "V", ["1", "0"],
+        [("wavetype", .str "rect"), ("V", .num 1), ("w", .num 0), ("phi", .num 0), ("R", .num 0)]⟩ w Gen.defaultWRes
+      = some (.error .zeroDivision) := by
+  constructor
+  · decide +kernel
+  · intro w
+    have hl : Gen.tables.transformers.lookup "periodic_voltage_source" = some "periodic_voltage_source" := by decide
+    have hin : "rect" ∈ Gen.tables.waves := by decide
+    simp only [transformComponent, hl, tspec_periodic_voltage_source, TSpec.run]
+    simp [preRead, Component.get?, Component.strOf, Component.float, periodicFunction, hin, bind, Except.bind,
+      pure, Except.pure, List.lookup]
+
 /-! ## non-vacuity: concrete inputs that meet the hypotheses -/
 
 section Examples
